@@ -10,8 +10,7 @@ use dlt_core::fibex::{gather_fibex_data, verif_hooks, FibexConfig};
 use serde_json::{json, Value as J};
 use std::path::PathBuf;
 use std::sync::atomic::{AtomicU64, Ordering};
-use std::sync::{Arc, Mutex, OnceLock};
-use std::time::Instant;
+use std::sync::OnceLock;
 
 pub const TAG: u64 = 0xC12;
 
@@ -276,6 +275,17 @@ const STRUCT_TARGETS: &[&str] = &[
     "</fx:FIBEX>", "<fx:SIGNAL-REF", "<fx:PDU-REF", "BASE-DATA-TYPE", "</fx:CODING>", "</fx:SIGNAL>", "-->", "]]>", ";", "&",
 ];
 
+/// (start, end) of the value of every attribute spelled `pat` (pattern includes the opening quote)
+fn attr_values(d: &[u8], pat: &[u8]) -> Vec<(usize, usize)> {
+    find_all(d, pat)
+        .into_iter()
+        .filter_map(|p| {
+            let s = p + pat.len();
+            (s..d.len()).find(|i| d[*i] == b'"').map(|e| (s, e))
+        })
+        .collect()
+}
+
 fn find_all(h: &[u8], n: &[u8]) -> Vec<usize> {
     if n.is_empty() || h.len() < n.len() {
         return vec![];
@@ -288,12 +298,72 @@ pub fn damage(r: &mut Rng, d: &mut Vec<u8>, st: &mut Stats) -> String {
     if d.is_empty() {
         return "nothing to damage".into();
     }
-    match r.below(10) {
+    match r.below(13) {
         0 | 1 => {
             let at = r.below(d.len());
             d.truncate(at);
             st.inc("F-TRUNC");
             format!("F-TRUNC at {}", at)
+        }
+        10 => {
+            // rewire a reference (or rename an element) to the id of some other element of any kind:
+            // self references, cycles, references to the wrong kind, duplicated ids
+            let ids: Vec<(usize, usize)> = attr_values(d, b" ID=\"");
+            let mut targets: Vec<(usize, usize)> = attr_values(d, b"ID-REF=\"");
+            if ids.is_empty() {
+                return "no id found".into();
+            }
+            if targets.is_empty() || r.chance(1, 4) {
+                targets = ids.clone();
+            }
+            let (ts, te) = *r.pick(&targets);
+            // prefer an id close by (the enclosing element, a neighbour): that is what makes cycles
+            let near: Vec<&(usize, usize)> = ids.iter().filter(|(s, _)| (*s as i64 - ts as i64).abs() < 400).collect();
+            let (is, ie) = if !near.is_empty() && r.bool() { **r.pick(&near) } else { *r.pick(&ids) };
+            let val = d[is..ie].to_vec();
+            let note = format!("F-REF value at {} := {:?}", ts, String::from_utf8_lossy(&val));
+            d.splice(ts..te, val);
+            st.inc("F-REF");
+            note
+        }
+        11 => {
+            // nest a copy of one complete element inside another element (after some tag end)
+            let starts: Vec<usize> = (0..d.len().saturating_sub(2)).filter(|i| d[*i] == b'<' && d[*i + 1].is_ascii_alphabetic()).collect();
+            if starts.is_empty() {
+                return "no element found".into();
+            }
+            let s0 = *r.pick(&starts);
+            let name_end = (s0 + 1..d.len()).find(|i| !(d[*i].is_ascii_alphanumeric() || d[*i] == b':' || d[*i] == b'-' || d[*i] == b'_')).unwrap_or(d.len());
+            let name = d[s0 + 1..name_end].to_vec();
+            let mut close = b"</".to_vec();
+            close.extend_from_slice(&name);
+            close.push(b'>');
+            let Some(e0) = find_all(&d[s0..], &close).first().map(|x| s0 + x + close.len()) else { return "element without end tag".into() };
+            let blk = d[s0..e0].to_vec();
+            let gts: Vec<usize> = (0..d.len()).filter(|i| d[*i] == b'>').collect();
+            // inside itself (right after its own start tag), or anywhere
+            let at = if r.bool() { (s0..e0).find(|i| d[*i] == b'>').map(|x| x + 1).unwrap_or(e0) } else { *r.pick(&gts) + 1 };
+            let note = format!("F-NEST copy of <{}> ({} bytes) inserted at {}", String::from_utf8_lossy(&name), blk.len(), at);
+            let tail = d.split_off(at);
+            d.extend_from_slice(&blk);
+            d.extend(tail);
+            st.inc("F-NEST");
+            note
+        }
+        12 => {
+            // nesting depth: the same start tag many times over (no end tags), or a long run of one byte
+            let at = r.below(d.len());
+            let n = *r.pick(&[64usize, 1000, 20_000, 200_000]);
+            let unit: &[u8] = *r.pick(&[&b"<a>"[..], b"<fx:PDU ID=\"x\">", b"<![CDATA[", b"&", b"<!--", b" "]);
+            let mut blk = Vec::with_capacity(n * unit.len());
+            for _ in 0..n {
+                blk.extend_from_slice(unit);
+            }
+            let tail = d.split_off(at);
+            d.extend_from_slice(&blk);
+            d.extend(tail);
+            st.inc("F-DEEP");
+            format!("F-DEEP {} x {:?} at {}", n, String::from_utf8_lossy(unit), at)
         }
         2 => {
             let n = 1 + r.below(4);
@@ -337,7 +407,10 @@ pub fn damage(r: &mut Rng, d: &mut Vec<u8>, st: &mut Stats) -> String {
                 return "no number found".into();
             }
             let at = *r.pick(&digits);
-            let rep: &[u8] = *r.pick(&[&b"x"[..], b"-1", b"99999999999999999999999", b" ", b"1e3", b""]);
+            let rep: &[u8] = *r.pick(&[
+                &b"x"[..], b"-1", b"99999999999999999999999", b" ", b"1e3", b"", b"18446744073709551615", b"18446744073709551614", b"9223372036854775807",
+                b"4611686018427387904", b"4294967296", b"4294967295", b"65536", b"255", b"+7", b"0x10", b"007",
+            ]);
             d.splice(at..at + 1, rep.iter().cloned());
             st.inc("F-NUM");
             format!("F-NUM at {} -> {:?}", at, String::from_utf8_lossy(rep))
@@ -499,28 +572,6 @@ pub fn cleanup_base() {
     }
 }
 
-type Watch = Mutex<Vec<(u64, Instant, Arc<FibexCase>)>>;
-fn watch() -> &'static Watch {
-    static W: OnceLock<Watch> = OnceLock::new();
-    W.get_or_init(|| {
-        // wall-clock backstop for a hang that never touches the XML reader
-        std::thread::spawn(|| loop {
-            std::thread::sleep(std::time::Duration::from_secs(2));
-            let expired: Option<Arc<FibexCase>> = watch().lock().unwrap().iter().find(|(_, t, _)| t.elapsed().as_secs() > 120).map(|x| x.2.clone());
-            if let Some(c) = expired {
-                let mut body = c.to_json();
-                body["violation"] = json!({"property": "C12", "signature": "C12.c:wall-clock-watchdog", "detail": "a load did not return within 120 s"});
-                let path = crate::core::write_replay("C12", &body);
-                println!("VIOLATION property=C12 replay={}", path);
-                println!("  clause/signature: C12.c:wall-clock-watchdog (backstop; the step budget did not fire)");
-                cleanup_base();
-                std::process::exit(1);
-            }
-        });
-        Mutex::new(vec![])
-    })
-}
-
 pub struct Exec {
     pub violations: Vec<Violation>,
     pub hist: u64,
@@ -557,14 +608,11 @@ pub fn execute(case: &FibexCase, st: &mut Stats) -> Exec {
     }
     // a file of n bytes yields at most n + 1 XML events
     let budget = 2 * total + 64;
-    let arc = Arc::new(case.clone());
-    watch().lock().unwrap().push((id, Instant::now(), arc));
     verif_hooks::set_budget(Some(budget));
     let r = guarded(|| gather_fibex_data(FibexConfig { fibex_file_paths: paths }).map(|m| (m.frame_map.len(), m.frame_map_with_key.len())));
     let exhausted = verif_hooks::exhausted();
     let steps = verif_hooks::used();
     verif_hooks::set_budget(None);
-    watch().lock().unwrap().retain(|x| x.0 != id);
     let _ = std::fs::remove_dir_all(&dir);
 
     let mut v = vec![];
@@ -615,11 +663,8 @@ pub fn one_run(seed: u64, run: u64, tier: Tier, st: &mut Stats) -> (RunResult, O
 }
 
 /// every truncation offset 0..=len of every enumerated document (exhaustive per document)
-pub fn enumerate_cuts(tier: Tier, seed: u64, st: &mut Stats) -> Vec<(Violation, FibexCase)> {
+fn enumerated_docs(tier: Tier, seed: u64) -> (Vec<(String, Vec<u8>)>, Vec<u64>) {
     let mut docs: Vec<(String, Vec<u8>)> = shipped_documents();
-    if docs.is_empty() {
-        st.inc("shipped_documents_missing");
-    }
     // generated documents: a few in the quick tier, many in the thorough one
     let ngen = match tier {
         Tier::Quick => 6,
@@ -642,24 +687,46 @@ pub fn enumerate_cuts(tier: Tier, seed: u64, st: &mut Stats) -> Vec<(Violation, 
     for (_, d) in &docs {
         offs.push(offs.last().unwrap() + d.len() as u64 + 1);
     }
+    (docs, offs)
+}
+
+fn cut_case(docs: &[(String, Vec<u8>)], offs: &[u64], seed: u64, i: u64) -> (FibexCase, usize, String) {
+    let di = offs.partition_point(|o| *o <= i) - 1;
+    let cut = (i - offs[di]) as usize;
+    let (name, d) = &docs[di];
+    let case = FibexCase {
+        files: vec![FileSpec { name: name.clone(), kind: FileKind::Regular, content: d[..cut].to_vec() }],
+        notes: vec![format!("{}: F-TRUNC at {} of {} (enumerated)", name, cut, d.len())],
+        seed,
+        run: i,
+    };
+    (case, cut, name.clone())
+}
+
+/// the case behind index `idx` of the enumeration (used when such a load kills the process)
+pub fn enumerated_case(tier: Tier, seed: u64, idx: u64) -> Option<FibexCase> {
+    let (docs, offs) = enumerated_docs(tier, seed);
+    if idx >= *offs.last().unwrap() {
+        return None;
+    }
+    Some(cut_case(&docs, &offs, seed, idx).0)
+}
+
+pub fn enumerate_cuts(tier: Tier, seed: u64, st: &mut Stats) -> Vec<(Violation, FibexCase)> {
+    let (docs, offs) = enumerated_docs(tier, seed);
+    if shipped_documents().is_empty() {
+        st.inc("shipped_documents_missing");
+    }
     let total = *offs.last().unwrap();
     let docs_ref = &docs;
     let offs_ref = &offs;
     let (s2, fails) = run_batch(total, |i, st| {
-        let di = offs_ref.partition_point(|o| *o <= i) - 1;
-        let cut = (i - offs_ref[di]) as usize;
-        let (name, d) = &docs_ref[di];
-        let case = FibexCase {
-            files: vec![FileSpec { name: name.clone(), kind: FileKind::Regular, content: d[..cut].to_vec() }],
-            notes: vec![format!("{}: F-TRUNC at {} of {} (enumerated)", name, cut, d.len())],
-            seed,
-            run: i,
-        };
+        let (case, cut, name) = cut_case(docs_ref, offs_ref, seed, i);
         let ex = execute(&case, st);
         st.inc("enumerated_cuts");
         st.inc("F-TRUNC");
         let mut k = Fnv::default();
-        k.str(name);
+        k.str(&name);
         k.u64(cut as u64);
         st.distinct.insert(k.0);
         if cut > 64 {
@@ -672,15 +739,7 @@ pub fn enumerate_cuts(tier: Tier, seed: u64, st: &mut Stats) -> Vec<(Violation, 
     st.add("enumerated_documents", enumerated_docs);
     let mut out = vec![];
     for (i, viols) in fails.into_iter().take(50) {
-        let di = offs.partition_point(|o| *o <= i) - 1;
-        let cut = (i - offs[di]) as usize;
-        let (name, d) = &docs[di];
-        let case = FibexCase {
-            files: vec![FileSpec { name: name.clone(), kind: FileKind::Regular, content: d[..cut].to_vec() }],
-            notes: vec![format!("{}: F-TRUNC at {} of {} (enumerated)", name, cut, d.len())],
-            seed,
-            run: i,
-        };
+        let case = cut_case(&docs, &offs, seed, i).0;
         for v in viols {
             out.push((v, case.clone()));
         }
@@ -690,6 +749,10 @@ pub fn enumerate_cuts(tier: Tier, seed: u64, st: &mut Stats) -> Vec<(Violation, 
 
 /// delta debugging over the file set
 pub fn minimise(case: &FibexCase, sig: &str) -> FibexCase {
+    minimise_with(case, sig, &eval, 4000)
+}
+
+pub fn minimise_with(case: &FibexCase, sig: &str, eval: &dyn Fn(&FibexCase) -> Vec<Violation>, budget: usize) -> FibexCase {
     let fails = |c: &FibexCase| eval(c).iter().any(|v| v.sig == sig);
     let mut cur = case.clone();
     if !fails(&cur) {
@@ -706,7 +769,7 @@ pub fn minimise(case: &FibexCase, sig: &str) -> FibexCase {
             i += 1;
         }
     }
-    let mut budget: usize = 4000;
+    let mut budget: usize = budget;
     for fi in 0..cur.files.len() {
         let mut chunk = (cur.files[fi].content.len() / 2).max(1);
         loop {
